@@ -107,6 +107,14 @@ def main(pid, tier, replay_path=None):
                 scs = conn.gen_scenarios('flush', 500 if tier == 'quick' else 20000, seed) + conn.gen_scenarios('close', 300 if tier == 'quick' else 12000, seed) \
                     + conn.gen_scenarios('read', 300 if tier == 'quick' else 12000, seed)
                 cres, ccr = conn.run_scenarios(sc, binary, scs, 'c', procs=12)
+                # single-stall exploration of the scenarios in which somebody closes while a call may be blocked
+                import random as _rnd
+                withclose = [s for s in scs if any(a['name'].startswith('closer') for a in s['actors']) or any(p[0] in ('close', 'rst') for p in s['peer'])]
+                extra = conn.stall_variants(withclose[:40 if tier == 'quick' else 600], cres, per_scenario=30, rnd=_rnd.Random(seed), skip_actors=())
+                cres2, ccr2 = conn.run_scenarios(sc, binary, extra, 'cs', procs=12)
+                scs = scs + extra
+                cres.update(cres2)
+                ccr += ccr2
                 cvs, cn, cst = conn.validate(sc, cres, [s['id'] for s in scs], 'c')
                 cby = {s['id']: s for s in scs}
                 for v in cvs:
